@@ -229,7 +229,9 @@ def reachable_states(kind, seed, n_walks, walk_len, every=3):
                 if heavy and rng.random() < 0.6:
                     # an applicable stereo request; deletions (applicable only where something is stored) get half of the weight
                     ok_ops = [op for op in heavy if apply_ref(r.copy(), op) == "ok"]
-                    dels = [op for op in ok_ops if op[0].startswith("delete")]
+                    # pulling the bond from under a bond-centred descriptor / stereo change is an editing step of its own kind
+                    under = [("remove_bond", *sorted(b)) for b in list(r.bond_stereo) + list(r.bond_changes) if b in r.bonds]
+                    dels = [op for op in ok_ops if op[0].startswith("delete")] + under
                     pool = dels if dels and rng.random() < 0.5 else ok_ops
                     if not pool:
                         continue
